@@ -120,6 +120,12 @@ K_HARNESSES = {
                               LOG_NOTE],
         bound="NFILES entries below the root `/s`, names of exactly NNAME characters from {r s R S a . ~}, optionally inside a one-character directory, "
               "NEXT configured extensions of exactly EXTLEN characters from the same set; non-ASCII and longer names outside"),
+    "u_setup_context": dict(
+        module="verif_main",
+        functions=["src/main.rs::setup_context (copied out of main.rs verbatim on every run; real std::path::Path::parent and to_str)"],
+        stubs=4, assumptions=["std::fs::read_to_string stubbed (the configuration file is readable; checks the path it is given); Context::new stubbed: records the "
+                              "directory and mode it is called with (u_ctx_new decides what Context::new does with them); core::str::from_utf8 stubbed (ASCII argument)"],
+        bound="--config argument of exactly FLEN characters: FLEN-1 characters from {c /} without `//`, then `b`; longer arguments, `.`/`..` components outside"),
     "u_ctx_new": dict(
         module="verif_context",
         functions=["src/config/context.rs::Context::new (real code incl. Path::join, str::starts_with, PathBuf::to_str)",
@@ -174,9 +180,9 @@ def KB(harness, tag, bounds, timeout=1500, mem_gb=24):
             "timeout": timeout, "mem_gb": mem_gb}
 
 
-def FIND(nfiles, nname, next_, extlen, timeout=1800):
-    return KB("u_find", "%dx%d-%dx%d" % (nfiles, nname, next_, extlen),
-              {"NFILES": nfiles, "NNAME": nname, "NEXT": next_, "EXTLEN": extlen}, timeout, 28)
+def FIND(nfiles, nname, next_, extlen, deep=0, timeout=1800):
+    return KB("u_find", "%dx%d-%dx%d%s" % (nfiles, nname, next_, extlen, {0: "", 1: "-in-dir", 2: "-in-hidden-dir"}[deep]),
+              {"NFILES": nfiles, "NNAME": nname, "NEXT": next_, "EXTLEN": extlen, "DEEP": deep}, timeout, 28)
 
 
 def S(name, fn, **kw):
@@ -197,7 +203,7 @@ def obligations(prop, tier):
         "C06": [K("d_generate"), K("u_count"), K("u_nextid"), K("u_insert")],
         "C07": [K("u_insert"), K("u_insert_unordered")],
         "C08": [K("u_insert"), K("u_insert_reduce"), K("d_generate")],
-        "C15": [K("d_generate"), FIND(1, 4, 2, 2), FIND(1, 3, 1, 2), KB("u_ctx_new", "dir2-src1", {"DIRLEN": 2, "SRCLEN": 1}),
+        "C15": [K("d_generate"), FIND(1, 4, 2, 2), FIND(1, 3, 1, 2), KB("u_setup_context", "len4", {"FLEN": 4}), KB("u_ctx_new", "dir2-src1", {"DIRLEN": 2, "SRCLEN": 1}),
                 KB("u_ctx_new", "dir1-src2", {"DIRLEN": 1, "SRCLEN": 2}), KB("u_ctx_write_path", "dir2", {"DIRLEN": 2}),
                 KB("u_ctx_write_path", "dir0", {"DIRLEN": 0})],
         "C16": [K("d_generate"), K("d_check"), K("u_ctx_read"), K("u_ctx_write")],
@@ -220,7 +226,8 @@ def obligations(prop, tier):
             "C13": [K("u_insert", True, 2400, 28)],
             "C12": [KD("u_extract", 9, 3000, 28), KD("u_extract", 10, 3000, 28), KD("u_extract", 11, 3000, 28)],
             "C17": [K("u_insert", True, 2400, 28)],
-            "C15": [FIND(2, 4, 1, 2, 3600), FIND(1, 5, 1, 2), FIND(1, 4, 1, 1), FIND(1, 2, 1, 1),
+            "C15": [KB("u_setup_context", "len3", {"FLEN": 3}), KB("u_setup_context", "len5", {"FLEN": 5}), KB("u_setup_context", "len2", {"FLEN": 2}),
+                    FIND(1, 3, 1, 1, 2, 2400), FIND(1, 3, 1, 1, 1, 2400), FIND(2, 4, 1, 2, 0, 3600), FIND(1, 5, 1, 2), FIND(1, 4, 1, 1), FIND(1, 2, 1, 1),
                     KB("u_ctx_new", "dir2-src2", {"DIRLEN": 2, "SRCLEN": 2}), KB("u_ctx_new", "dir0-src1", {"DIRLEN": 0, "SRCLEN": 1}),
                     KB("u_ctx_write_path", "dir1", {"DIRLEN": 1})],
         }
@@ -314,6 +321,16 @@ def absorb_k(out, prop, ob, rec):
                 out.inconclusive_because(name, "only assertions of CBMC's allocator model failed (%s): an artifact of the model for safe "
                                                "code, not a statement about the property" % summary["allocator_model_artifacts"][:2])
                 return
+    # code the engine cannot execute (FFI, inline assembly, ...) is not a verdict about the property
+    UNSUPPORTED = ("is not currently supported by Kani", "call to foreign", "unsupported construct", "Unsupported")
+    unsup = [f for f in rec.get("failed", []) if any(u in f["description"] for u in UNSUPPORTED)]
+    if unsup:
+        rec["failed"] = [f for f in rec["failed"] if f not in unsup]
+        summary["unsupported_constructs"] = sorted({f["description"] for f in unsup})
+        if not rec["failed"]:
+            out.add_obligation(name, "K", "inconclusive", **summary)
+            out.inconclusive_because(name, "the code reaches something Kani cannot execute (%s): no verdict" % summary["unsupported_constructs"][:2])
+            return
     relevant = []
     foreign = []
     for f in rec.get("failed", []):
